@@ -8,7 +8,7 @@ use proptest::prelude::*;
 use serde::{Deserialize, Serialize};
 use serde_json::{json, Value};
 
-use crate::engine::{catch, h64, run_generated_n, show_bytes, Ctx, Stats};
+use crate::engine::{catch, h64, show_bytes, Ctx, Stats};
 use crate::io::port::{Exhausted, PortState, ReadStep, TestPort, WriteStep};
 use crate::oracle::hex::{ref_decode, ref_encode, RefDecode};
 use crate::props::c01::{addr_strategy, byte_strategy};
@@ -367,7 +367,7 @@ pub fn run(ctx: &Ctx) {
     });
     ctx.part_done("kinds-x-replies-x-faults", true, json!({"messages": msgs.len(), "reply_tapes": replies.len(), "faults": faults.len(), "cases": n}));
 
-    run_generated_n(ctx, "generated", ctx.tier.pick(40_000, 600_000), 64, exchange_strategy, |c, st| check_exchange(c, st));
+    crate::engine::run_generated_opts(ctx, "generated", ctx.tier.pick(40_000, 600_000), 64, 2_000, exchange_strategy, |c, st| check_exchange(c, st));
 }
 
 pub fn replay(_part: &str, case: &Value) -> Result<(), String> {
